@@ -24,6 +24,8 @@ _num = re.compile(r"\d+")
 
 def sanitizer_signature(text, how=""):
     """Line-number independent signature of the first sanitizer report in text."""
+    if "hang" in how:
+        return "hang"
     if not text:
         return "crash:%s" % (how or "unknown")
     def frame(after):
